@@ -161,9 +161,9 @@ func genC09(rng *rand.Rand) *c09Scenario {
 			case "varint+text":
 				kinds = []string{"s", "b", "f"}
 			case "packet":
-				kinds = []string{"b", "r", "f", "m"}
+				kinds = []string{"b", "r", "f", "m", "v"}
 			default:
-				kinds = []string{"b", "s", "r"}
+				kinds = []string{"b", "s", "r", "v", "v"}
 			}
 			kind := kinds[rng.Intn(len(kinds))]
 			n := []int{3, 9, 40, 130, 300}[rng.Intn(5)] // 130/300: a two-byte varint length prefix
